@@ -21,6 +21,7 @@ RULE = ('random trees interleaving all seven node kinds (text, blank text, comme
         'real concatenation (spanning node boundaries and reaching into comment/CDATA text), plus empty, absent, quote/backslash/'
         'newline/astral needles, lists of needles, both kinds in one compound, the deprecated alias and :empty.  Non-trivial = '
         'expected set neither empty nor everything; distinct = distinct (selector shape, needle class, tree shape).')
+RULE += (' Round-3/4 additions: elements merely called iframe in the SVG namespace (html5lib, API) and XHTML through the XML parser with IFrame/IFRAME look-alike names.')
 ASSUMPTIONS = [
     'an element is an iframe (content cut) when its name is iframe in an HTML document (HTML namespace where namespaces are meaningful)',
     'the empty needle occurs in every string, so :-soup-contains("") holds for every element and -own("") for every element with a text child',
